@@ -137,8 +137,26 @@ var keyPool = []string{`"a\\n"`, `"\\u0041"`, `"\u0041"`, `"C:\\temp"`, `"C:\tem
 // Key appends an object key (from a small pool so duplicates, raw-equal and
 // escaped-equal, are frequent; sometimes a free string).
 func Key(t *rapid.T, b []byte, p Profile) []byte {
-	if intn(t, 4, "freekey?") == 0 {
+	switch intn(t, 8, "freekey?") {
+	case 0, 1:
 		return Str(t, b, p.StrPieces)
+	case 2:
+		// twins: a key whose DECODED text equals another key's RAW spelling (escaped backslash
+		// + escape letter vs. the escape itself), over a small family of bases so that both
+		// spellings meet in one object or on one reader
+		base := []string{"", "a", "k", "p:", "dir", "x/y", "é", "q\\"}[intn(t, 8, "twinbase")]
+		esc := []string{"n", "t", "b", "f", "r", "/", "u0041", "u00e9", "ud83d\\ude00", "uDC00"}[intn(t, 10, "twinesc")]
+		tail := []string{"", "z", "ew", "1"}[intn(t, 4, "twintail")]
+		b = append(b, '"')
+		b = append(b, base...)
+		if intn(t, 2, "twinform") == 0 {
+			b = append(b, '\\', '\\') // escaped backslash: decodes to a literal backslash
+		} else {
+			b = append(b, '\\')
+		}
+		b = append(b, esc...)
+		b = append(b, tail...)
+		return append(b, '"')
 	}
 	return append(b, keyPool[intn(t, len(keyPool), "key")]...)
 }
@@ -209,7 +227,8 @@ func Container(t *rapid.T, b []byte, p Profile, kind byte, depth int) []byte {
 }
 
 // Trailers are bytes/fragments that may follow a complete value.
-var Trailers = []string{"", "", "", " ", "\n", ",", "]", "}", ":", "x", "1", "\"", "\x00", " x", "\t\r\n ", "null", "[", "{", "e", ".", "-", "+", "0", "\xff", "\x0c", "\x0b"}
+var Trailers = []string{"", "", "", " ", "\n", ",", "]", "}", ":", "x", "1", "\"", "\x00", " x", "\t\r\n ", "null", "[", "{", "e", ".", "-", "+", "0", "\xff", "\x0c", "\x0b",
+	"\xef\xbb\xbf", "\xef\xbb\xbf\n", " \xef\xbb\xbf", "\xc2\xa0", "\xe2\x80\xa8", "\xe2\x80\x8b", "//", "/**/", " // c\n", "\xef\xbb", "\xfe\xff", ".5", "e5", "E-1", ".5e3", "5", "00", "-1", "\r\n\r\n", "\x1a", "\x85", "#", ";"}
 
 // Doc draws a well-formed document: optional leading whitespace, one value, optional
 // trailer (whitespace or arbitrary following bytes).
@@ -244,7 +263,7 @@ func Mutate(t *rapid.T, b []byte) []byte {
 		}
 		return HostileBytes[intn(t, len(HostileBytes), "hb")]
 	}
-	switch intn(t, 8, "mutkind") {
+	switch intn(t, 9, "mutkind") {
 	case 0:
 		return b[:i]
 	case 1:
@@ -282,9 +301,34 @@ func Mutate(t *rapid.T, b []byte) []byte {
 		frag := append([]byte(nil), b[i:j]...)
 		k := intn(t, len(b)+1, "mutpos3")
 		return append(b[:k:k], append(frag, b[k:]...)...)
-	default: // append a trailing byte
+	case 7: // append a trailing byte
 		return append(b, pick())
+	default: // an extra fraction / exponent tail after some number
+		return MutateNumberTail(t, b)
 	}
+}
+
+// numTails are fraction / exponent tails; appended to a number that already has one they
+// make a token that maximal munch must split (1.5.5, 1e5e5, 2.5e3.75).
+var numTails = []string{".5", ".25", "e5", "E-1", "e+2", ".5e3", ".0", "e0"}
+
+// MutateNumberTail finds a number inside b (a digit followed by a non-number byte or the end)
+// and inserts an extra fraction/exponent tail right after it.
+func MutateNumberTail(t *rapid.T, b []byte) []byte {
+	var ends []int
+	for i := 0; i < len(b); i++ {
+		if b[i] >= '0' && b[i] <= '9' && (i+1 == len(b) || !(b[i+1] >= '0' && b[i+1] <= '9' || b[i+1] == '.' || b[i+1] == 'e' || b[i+1] == 'E')) {
+			ends = append(ends, i+1)
+		}
+	}
+	if len(ends) == 0 {
+		return b
+	}
+	at := ends[intn(t, len(ends), "numend")]
+	tail := numTails[intn(t, len(numTails), "numtail")]
+	out := append([]byte(nil), b[:at]...)
+	out = append(out, tail...)
+	return append(out, b[at:]...)
 }
 
 // Sweep calls f on every truncation of doc, every single-byte substitution (256 values at
